@@ -27,6 +27,14 @@ theorem ksOf_get (aL aS nL n s k : Nat) (h : (ksOf aL aS nL n)[s]? = some k) :
     simp only [hs, Option.map_some, Option.some.injEq] at h
     exact ⟨h1, h.symm⟩
 
+theorem ksOf_get' (aL aS nL n s : Nat) (h : s < n) :
+    (ksOf aL aS nL n)[s]? = some (if s < nL then aL else aS) := by
+  unfold ksOf
+  simp only [List.getElem?_toArray, List.getElem?_map]
+  have : (List.range n)[s]? = some s := by
+    rw [List.getElem?_eq_some_iff]; exact ⟨by simpa using h, by simp⟩
+  rw [this]; rfl
+
 /-- **C07 ⇒ side conditions of C01/C02/C16.**  For every non-empty object (L > 0), symbol size E > 0 and
     block size B > 0 (L < 2^64), the partition `block_partitioning(B, L, E)` yields at least one block and
     every block has between 1 and B source symbols. -/
